@@ -129,7 +129,7 @@ def build(r, name):
         dv = Variant(ident="CatchAll%s" % name, kind=r.choice(["tuple", "named"]), default=True, to_string=r.choice(["dflt", "catch all", "é-default", "d"]))
         dv.fields = [Field(ty="String")] if dv.kind == "tuple" else [Field(ty="String", name=r.choice(["f", "s", "inner"]))]
         vs.insert(r.randint(0, len(vs)), dv)
-    return EnumSpec(name=name, variants=vs, derives=["Display"], serialize_all=style, prefix=prefix, std_derives=["Debug", "Clone"])
+    return gen.maybe_macro_wrap(r, EnumSpec(name=name, variants=vs, derives=["Display"], serialize_all=style, prefix=prefix, std_derives=["Debug", "Clone"]))
 
 
 def check(run):
